@@ -158,6 +158,17 @@ def run_case(case, prop) -> Dict[str, Any]:
     hd = digest(r.hist)
     viols, info = analyse(sc, sp, r)
     oc = r.outcome
+    if oc[0] == "exception" and oc[1] == "SimulationError" and "has performed a sub-step more than" in oc[2] \
+            and any(v["kind"] == "rt_internal_error" for v in viols):
+        # the same-time loop guard is not an internal error if the scenario's loop does not settle (a weak
+        # cycle over persistent outputs into trigger inputs never does): then RM's demand set contains a
+        # sub-step at or beyond the bound and the guard fired as C09 says it must
+        from ..oracles import core as ocore
+        A_ = ocore.analyse(r.hist, rm, oc, sc["config"])
+        mli_ = sc["config"].get("mli", 100)
+        if any(any(x >= mli_ for x in tau[1:]) for d_ in A_.dem.values() for tau in d_):
+            viols = [v for v in viols if v["kind"] != "rt_internal_error"]
+            st["loop_guard_expected"] = 1
     out["completed" if oc[0] == "ok" else "aborted"] += 1
     st["rt_on" if sc["config"].get("rt_factor") is not None else "rt_off"] = 1
     if info["paced"]:
